@@ -610,7 +610,9 @@ def c21(tier, seed):
     res = Result("C21", tier, seed)
     core.build()
     q = tier == "quick"
-    path, g, n = core.gen_transitions("Codec.cfg", {} if q else {"Pairs": "= TRUE", "HugeSizes": "= TRUE"}, module="Codec", timeout=3000, heap="8g")
+    # (HugeSizes = TRUE - flips in the two high-order bytes of the size fields, each making the reader allocate up to 4 GB - did not
+    # finish within the driver timeout on this machine once the template set had grown; it stays a switch of Codec.tla)
+    path, g, n = core.gen_transitions("Codec.cfg", {} if q else {"Pairs": "= TRUE"}, module="Codec", timeout=3000, heap="8g")
     res.add_mc("Codec", g)
     res.extra["emitted_reads"] = n
     shards = [["@replay", "%mod=CodecTrace", "-in", p, "-mode", "codec"] for p in split_file(path, 12)]
@@ -624,7 +626,7 @@ def c21(tier, seed):
     res.assumptions += ["TLA+ contributes the enumeration and the acceptance rule, not the byte layout or the CRC arithmetic (DESIGN.md)",
                         "templates: each size field in {0,1,7}, flags {0,1,9,13}, status {0,1}, structure {0,2,4}, timestamp/TTL/tx id/file id/offset in {0,1,max}; "
                         "varied one (quick) or two (thorough) at a time around a base template, plus all size combinations; "
-                        "the quick tier skips flips in the two high-order bytes of size fields (the reader then allocates up to 4 GB per read)"]
+                        "flips in the two high-order bytes of size fields are not enumerated (the reader then allocates up to 4 GB per read; the switch HugeSizes of Codec.tla turns them on)"]
     return res.finish()
 
 
